@@ -2081,6 +2081,10 @@ class Ev:
         for suffix, h in self.hooks.items():
             if not suffix.startswith("@") and d.endswith(suffix):
                 return h(self, [recv] + args, e)
+        if isinstance(recv, Sym) and recv.tag[:1] == ("ctor",) and len(recv.tag) == 2 and recv.tag[1] in WEEKDAY_NO and not args and \
+                m in ("num_days_from_monday", "number_from_monday", "num_days_from_sunday", "number_from_sunday") and "chrono" in d:
+            n_ = WEEKDAY_NO[recv.tag[1]]          # chrono::Weekday numbering: Mon = 0 .. Sun = 6
+            return Poly.const({"num_days_from_monday": n_, "number_from_monday": n_ + 1, "num_days_from_sunday": (n_ + 1) % 7, "number_from_sunday": (n_ + 1) % 7 + 1}[m])
         if isinstance(recv, Sym) and recv.tag[:2] == ("ctor", "HashMapLit") and m in ("get", "contains_key") and len(args) == 1:
             # look-up of a literal key in a map written out as pairs with literal keys: the later of equal keys wins, as on insertion
             pairs = recv.tag[2].items
@@ -2400,6 +2404,18 @@ class Ev:
                     return Sym("ctor", "Some", body) if m == "map" else body
             if m == "is_none" and not args:
                 return Sym("bool", "true" if recv.tag[1] == "None" else "false")
+            if m in ("map", "and_then") and len(args) == 1 and recv.tag[1] in ("Ok", "Err") and (isinstance(args[0], Clo) or (isinstance(args[0], Sym) and args[0].tag[:1] == ("fn",))):
+                # Result combinators on a known constructor: Err passes through, Ok(x) gives Ok(f(x)) / f(x)
+                if recv.tag[1] == "Err":
+                    return recv
+                if len(recv.tag) == 3:
+                    if isinstance(args[0], Clo):
+                        env2 = dict(args[0].env)
+                        self.bind(args[0].params[0], recv.tag[2], env2)
+                        body = self.collapse(self.eval(args[0].body, env2, depth))
+                    else:
+                        body = self.call_value(args[0], [recv.tag[2]], e, depth)
+                    return Sym("ctor", "Ok", body) if m == "map" else body
         if ((isinstance(recv, Sym) and recv.tag[:1] != ("ctor",)) or isinstance(recv, Seq)) and m in ("ok_or", "ok_or_else") and len(args) == 1 and \
                 (e["recv"].get("ty") or "").replace("&", "").startswith("std::option::Option<"):
             # on an opaque Option: the same two paths as `match o { Some(v) => Ok(v), None => Err(e) }`
@@ -2520,6 +2536,9 @@ class Ev:
             return Sym("optcase", m, vkey(recv), tuple(vkey(a) for a in args[:-1]), vkey(body))
         if m in ("eq", "ne") and len(args) == 1 and not isinstance(recv, (Poly, Rec)) and not isinstance(args[0], (Poly, Rec)) and self.facts.fn(d) is None:
             return eq_sym(recv, args[0]) if m == "eq" else Sym("not", vkey(eq_sym(recv, args[0])))      # a.eq(&b) is a == b
+        if isinstance(recv, Sym) and m in ("is_some", "is_none") and not args and recv.tag[:2] == ("m", "get_index_of") and len(recv.tag) == 4 and len(recv.tag[3]) == 1:
+            c_ = Sym("m", "contains", recv.tag[2], recv.tag[3])          # `s.get_index_of(x).is_some()` is `s.contains(x)`
+            return c_ if m == "is_some" else Sym("not", vkey(c_))
         if isinstance(recv, Sym) and m == "is_some" and not args:
             return Sym("not", vkey(Sym("m", "is_none", vkey(recv), ())))           # one spelling for is_some / !is_none / != None
         if isinstance(recv, Sym):
@@ -2597,6 +2616,9 @@ def canon_seq(seq):
         a, b = poly_from_key(src[2]), poly_from_key(src[3])
         return Seq(Sym("range", Poly.const(0).key(), (b - a).key()), lambda idx, f0=seq.fn, a=a: f0(idx + a), seq.enumerated)
     return seq
+
+
+WEEKDAY_NO = {"Mon": 0, "Tue": 1, "Wed": 2, "Thu": 3, "Fri": 4, "Sat": 5, "Sun": 6}
 
 
 def is_lit(v):
